@@ -15,6 +15,7 @@ import (
 	"regexp"
 	"sort"
 	"strings"
+	"time"
 
 	oci "github.com/opencontainers/runtime-spec/specs-go"
 	yamlv3 "gopkg.in/yaml.v3"
@@ -146,8 +147,12 @@ func checkC19(c *Ctx) {
 		}
 		p.Write()
 		// reference
-		ref, _ := cdi.NewCache(cdi.WithSpecDirs(p.Conf...))
+		ref, ok := newRefAutoCache(cdi.WithSpecDirs(p.Conf...))
 		defer releaseCache(ref)
+		if !ok {
+			c.Inconclusive("no-inotify-instance")
+			return
+		}
 		refErrs := ref.GetErrors()
 		var errKeys []string
 		for k := range refErrs {
@@ -193,6 +198,17 @@ func checkC19(c *Ctx) {
 				args = append(append([]string{}, sc.args...), df...) // flags after the subcommand
 			}
 			res := runCLI(cdiBin, nil, args...)
+			// a tool process that got no inotify instance from the machine reports
+			// directory errors the reference does not have: run it again
+			for attempt := 0; attempt < 8 && strings.Contains(res.out, "failed to create watcher"); attempt++ {
+				envShortages.Add(1)
+				waitInotify(15 * time.Second)
+				res = runCLI(cdiBin, nil, args...)
+			}
+			if strings.Contains(res.out, "failed to create watcher") {
+				c.Inconclusive("no-inotify-instance")
+				continue
+			}
 			c.Count("cdi_invocations", 1)
 			c.Count("subcommand:"+sc.name, 1)
 			c.Distinct(fmt.Sprintf("%s|%v|%d", sc.name, hasErr, len(df)))
@@ -391,6 +407,15 @@ func checkC19(c *Ctx) {
 					}
 					args = append(args, patterns...)
 					res := runCLI(cdiBin, stdin, args...)
+					for attempt := 0; attempt < 8 && strings.Contains(res.out, "failed to create watcher"); attempt++ {
+						envShortages.Add(1)
+						waitInotify(15 * time.Second)
+						res = runCLI(cdiBin, stdin, args...)
+					}
+					if strings.Contains(res.out, "failed to create watcher") {
+						c.Inconclusive("no-inotify-instance")
+						continue
+					}
 					c.Count("cdi_invocations", 1)
 					c.Count("subcommand:inject", 1)
 					c.Distinct(fmt.Sprintf("inject|%s|%v|%d", format, stdin != nil, len(patterns)))
